@@ -302,6 +302,14 @@ func (fs *FS) Rename(oldname, newname string) error {
 		if oldname == newname {
 			return nil
 		}
+		newFile, err := fs.getFile(newname)
+		switch {
+		case err == nil && newFile.info().IsDir():
+			// a file cannot replace a directory: its children would be left below a regular file
+			return &hackpadfs.LinkError{Op: "rename", Old: oldname, New: newname, Err: hackpadfs.ErrExist}
+		case err != nil && !errors.Is(err, hackpadfs.ErrNotExist):
+			return linkErr("rename", oldname, newname, err)
+		}
 		contents, err := oldFile.fileData.Data()
 		if err != nil {
 			return linkErr("rename", oldname, newname, err)
